@@ -184,7 +184,6 @@ func VerifHarness_C08_O5() {
 	verifReach("end")
 }
 
-
 // C08/O6 — a membership request with a hostile (unknown) type that went
 // through consensus must not crash the node when its receipt is processed
 // (same obligation as C10/O1, whose receipts include an unknown type).
